@@ -22,6 +22,11 @@ from deep.api.attributes import BoundedAttributes
 from deep.api.resource import Resource
 from deep.utils import time_ns
 
+# snapshot ids come from a generator of our own: the module level functions of 'random' share one generator with the
+# application, so drawing from them would change the random numbers a (seeded) application sees. The OS source keeps ids
+# unique across forked workers too.
+_id_generator = random.SystemRandom()
+
 
 class EventSnapshot:
     """This is the model for the snapshot that is uploaded to the services."""
@@ -36,7 +41,7 @@ class EventSnapshot:
         :param frames: the captured frames
         :param var_lookup: the captured variables.
         """
-        self._id = random.getrandbits(128)
+        self._id = _id_generator.getrandbits(128)
         self._tracepoint = tracepoint
         self._var_lookup: Dict[str, 'Variable'] = var_lookup
         self._ts_nanos = ts
